@@ -59,7 +59,7 @@ type CryptoHash struct {
 // Call the function with the arguments provided.
 func (f *CryptoHash) Call(s *slip.Scope, args slip.List, depth int) slip.Object {
 	slip.CheckArgCount(s, depth, f, args, 2, 2)
-	data := []byte(slip.CoerceToOctets(args[0]).(slip.Octets))
+	data := coerceToBytes(args[0])
 	var h crypto.Hash
 	switch args[1] {
 	case slip.Symbol(":md5"):
